@@ -6,7 +6,7 @@ import signal
 from hypothesis import strategies as hs
 
 from dxv import sut, spec, gen
-from dxv.engine import HypCheck
+from dxv.engine import HypCheck, EnumCheck
 
 ASSUMPTIONS = [
     '"terminates" is decided by a 30 s alarm per case (a typical case takes '
@@ -35,6 +35,8 @@ FRAGMENTS = [
     '#...meta: format=pycon, length=9\n>>> 1\n1', '#.meta: format=rbcon\nirb> 1\r\n=> 1',
     '#.meta: format=robotframework\n*** Test ***\r\nx\r\n', '#.meta: format=doscon\nC:\\> dir\nx',
     '#.meta: format=yaml\na: 1', '#.meta: format=text\nplain', '#.meta: format=html\n<a>',
+    '#.meta: length=14\n{"C:\\qa": 1}\n', '#...meta: format=json\n{"a\tb": 1, "path": "x"}\n',
+    '#..meta:\n{"path": "\\q", "op": 1}', '{"stats": {"x\\y": 1}}\n',
     '@@ -1,2 +1,2\n', '@@@ -1 -1 +1\n', '@@ -\n', '#...diff:\n@@ -1 +1\n+x\n',
     '+x...\n', ' retry later...\n', '...\r\n', 'a...b\n', '....\n',
     '#.change: encoding=UTF-8\n', '#..file: encoding=utf_8\n',
@@ -295,6 +297,41 @@ def writer_files(draw):
                                          pool=('utf-8',)))}
 
 
+def many_chunks(tier, seed):
+    return [(1, 400), (3, 400), (400, 1), (1, 1100), (1100, 1), (40, 30)]
+
+
+def run_many_chunk(chunk, st):
+    """Writer files with hundreds to a thousand containers."""
+    nchanges, nfiles = chunk
+    calls = [['preamble', {'text': 'many sections'}]]
+
+    for c in range(nchanges):
+        calls.append(['change', {}])
+        calls.append(['meta', {'metadata': {'id': c}}])
+
+        for f in range(nfiles):
+            calls.append(['file', {}])
+            calls.append(['meta', {'metadata': {'path': 'f%d' % f}}])
+
+            if (c + f) % 50 == 0:
+                calls.append(['diff', {'content': b'@@ -1 +1 @@\n-a\n+b\n'}])
+
+    case = {'program': {'encoding': 'utf-8', 'calls': calls}}
+    stats_before = len(st.buckets)
+    run_writer_file(case, st)
+
+    for b in list(st.buckets.values())[stats_before:]:
+        b['case'] = {'many': [nchanges, nfiles]}
+
+
+def run_many_case(case, st):
+    if 'many' in case:
+        return run_many_chunk(tuple(case['many']), st)
+
+    return run_writer_file(case, st)
+
+
 def checks():
     return [
         HypCheck(
@@ -314,4 +351,13 @@ def checks():
                  'lossless, no Error token, and the header tokens equal the '
                  'file\'s section headers in order; non-trivial = >= 4 '
                  'sections'),
+        EnumCheck(
+            'many-sections', many_chunks, run_many_chunk,
+            run_case=run_many_case, exhaustive=False,
+            rule='writer files with 400 to 1 100 changes or files (one '
+                 'change with 1 100 files, 1 100 changes with one file, '
+                 '40 x 30, ...): lossless, no Error token, header tokens == '
+                 'section headers; all non-trivial',
+            bound={'quick': '6 files of up to 2 200 sections',
+                   'thorough': 'same'}),
     ]
